@@ -127,6 +127,8 @@ GUARDS = [
      "isinstance(c, etree._Entity)", 'raise'),
     ('g_xml_member_attr', 'spyne.protocol.xml', 'XmlDocument.complex_from_element',
      "not issubclass(member, XmlAttribute)", 'continue'),
+    ('g_xml_child_attr_member', 'spyne.protocol.xml', 'XmlDocument.complex_from_element',
+     "issubclass(member, XmlAttribute)", 'continue'),
     ('g_xml_enum_member', 'spyne.protocol.xml', 'XmlDocument.enum_from_element',
      "not element.text in cls.__values__", 'raise'),
     ('g_xml_nil_not_nillable', 'spyne.protocol.xml', 'XmlDocument.from_element',
